@@ -42,6 +42,9 @@ func FuzzInput(f *testing.F) {
 		if st.InSequence() {
 			raw = append(raw, 0x18)
 		}
+		// the bytes may have opened a bracketed paste: close it, or the
+		// marker key would (correctly) arrive as pasted
+		raw = append(raw, "\x1b[201~"...)
 		c := Case{Caps: refterm.FromMask(mask % (1 << refterm.NumCaps))}
 		c.Opts.DisableKitty = noKitty
 		c.Steps = []Step{{Toks: []Tok{{K: "opaque", Raw: raw, Rep: 1, Mark: 1}}}}
